@@ -100,6 +100,31 @@ CHECKS = {
             'sampled.',
             'FakeHTTP models bitcoind\'s wire behaviour; virtual time.',
             'DESIGN.md §3 C18'),
+    'C14': ('exploration',
+            'model-based operation sequences over a real synced database: compaction batches with '
+            'generated limits, stop/resume, the real tool, kill before the UTXO flush count, server '
+            'starts, further blocks and reorgs; oracle = replay model of histories',
+            'Generated compaction histories on real databases with small row sizes; every script '
+            'hash\'s tx numbers must equal the model after each operation and the full observation '
+            'after each server run. One open finding attributed by signature. Sampled.',
+            'LevelDB atomicity; max_hist_row_entries set by the harness (not persisted).',
+            'DESIGN.md §3 C14'),
+    'C15': ('exploration',
+            'model-based sequences (instalment-wise initial sync, restarts, forks and forced reorgs '
+            'of depth 1 / limit-1 / limit) with an invariant on the raw undo keys and C03\'s oracle',
+            'Generated reorg limits, daemon trajectories and restart points; after every catch-up the '
+            'undo keys must cover the window, every in-window reorg must complete to the model, and '
+            'nothing older survives a re-open. Sampled.',
+            'LevelDB atomicity; FakeDaemon models bitcoind.',
+            'DESIGN.md §3 C15'),
+    'C16': ('exploration',
+            'grammar-based generation of raw JSON requests (all methods x recursive JSON values incl. '
+            'non-finite floats, near-valid mutations) against the whole real server; oracle = clean '
+            'reply + state/caches/observer unchanged; exception bucketing',
+            'Every handler of both protocol tables is fed generated argument lists / by-name dicts '
+            'through the real session machinery; internal errors are bucketed by root cause. Sampled.',
+            'no sockets (peer networking disabled); throttling off.',
+            'DESIGN.md §3 C16'),
 }
 
 NOT_BUILT = {}
